@@ -59,12 +59,12 @@ theorem C07V2_queries_agree (ops : List Db.V2.Op) :
     (∀ c, qValid d c = f.live c) ∧
     (∀ c, qParent d c = if f.live c then .ok (f.parentOf c) else .throw (exn "crate_deleted")) ∧
     (∀ c, qName d c = match f.nameOf c with | some n => .ok n | none => .throw (exn "crate_deleted")) ∧
-    (∀ c, qDescendants d c = f.descendants c) ∧
+    (∀ c, ∃ l, qDescendants d c = .ok l ∧ ∀ x, x ∈ l ↔ x ∈ f.descendants c) ∧
     (∀ n, qByName d n = f.byName n) ∧
     (∀ k n, qByParentName d k n = (f.byParentName (parentOpt k) n).getLast? ∧
       ∀ x ∈ f.byParentName (parentOpt k) n, ∀ y ∈ f.byParentName (parentOpt k) n, x = y) := by
   have hI := plInv_run plInv_empty ops
-  exact ⟨qCrates_eq _, qValid_eq _, qParent_eq _, qName_eq _, qDescendants_eq _, qByName_eq _,
+  exact ⟨qCrates_eq _, qValid_eq _, qParent_eq _, qName_eq _, qDescendants_eq hI.wf, qByName_eq _,
     fun k n => ⟨qByParentName_eq _ k n, byParentName_unique hI.wf _ n⟩⟩
 
 /-- root_crates() and children(c) list exactly the Spec's roots / children (each once): the ordered listings
@@ -81,10 +81,13 @@ theorem C07V2_roots_children_agree (ops : List Db.V2.Op) (hok : ops.all okOp = t
   refine ⟨_, walkIds_eq hC.rk c, kids_perm_children hC hc, fun x => ?_⟩
   rw [mem_kids_iff hC c x, parentOpt_of_ne hc]
 
-/-- descendants(c) is the transitive closure of the parent relation the API shows. -/
-theorem C07V2_descendants_transitive_closure (ops : List Db.V2.Op) (c x : Int) :
-    x ∈ qDescendants (run Db.empty ops) c ↔ Relation.TransGen (ParentQ (run Db.empty ops)) x c :=
-  mem_qDescendants_iff _ c x
+/-- descendants(c) — the recursive view PlaylistAllChildren, modelled by its own level-wise recursion — terminates
+and is the transitive closure of the parent relation the API shows. -/
+theorem C07V2_descendants_transitive_closure (ops : List Db.V2.Op) (c : Int) :
+    ∃ l, qDescendants (run Db.empty ops) c = .ok l ∧
+      ∀ x, x ∈ l ↔ Relation.TransGen (ParentQ (run Db.empty ops)) x c := by
+  obtain ⟨l, h1, h2⟩ := qDescendants_eq (plInv_run plInv_empty ops).wf c
+  exact ⟨l, h1, fun x => (h2 x).trans (mem_descSet_iff _ c x)⟩
 
 /-- Whatever the Spec rejects (an invalid or taken name, a removed crate or parent, a re-parenting under itself
 or one of its descendants) the Model rejects, and the whole state is unchanged. -/
@@ -94,9 +97,18 @@ theorem C07V2_rejected_without_effect (ops : List Db.V2.Op) (op : Db.V2.Op) (fop
   rejected_without_effect (plInv_run plInv_empty ops) hf hrej
 
 /-- A re-parenting that would create a cycle is rejected with crate_invalid_parent, leaving the state unchanged. -/
-theorem C07V2_cycle_rejected (ops : List Db.V2.Op) (c q : Int) (h : q = c ∨ q ∈ qDescendants (run Db.empty ops) c) :
-    step (run Db.empty ops) (.setParent c (some q)) = (run Db.empty ops, .throw (exn "crate_invalid_parent")) :=
-  setParent_cycle_rejected (plInv_run plInv_empty ops) c q h
+theorem C07V2_cycle_rejected (ops : List Db.V2.Op) (c q : Int)
+    (h : q = c ∨ ∃ l, qDescendants (run Db.empty ops) c = .ok l ∧ q ∈ l) :
+    step (run Db.empty ops) (.setParent c (some q)) = (run Db.empty ops, .throw (exn "crate_invalid_parent")) := by
+  have hP := plInv_run plInv_empty ops
+  apply setParent_cycle_rejected hP c q
+  rcases h with h | ⟨l, h1, h2⟩
+  · exact Or.inl h
+  · obtain ⟨l', h1', h2'⟩ := qDescendants_eq hP.wf c
+    rw [h1] at h1'
+    simp only [Res.ok.injEq] at h1'
+    subst h1'
+    exact Or.inr ((h2' q).mp h2)
 
 /-- A re-parenting under a crate that is not (or no longer) valid is rejected, leaving the state unchanged. -/
 theorem C07V2_dead_parent_rejected (ops : List Db.V2.Op) (c q : Int) (h : qValid (run Db.empty ops) q = false) :
@@ -123,33 +135,39 @@ theorem C07V2_invalid_name_rejected (ops : List Db.V2.Op) (n : Bytes) (hn : Fore
 /-- remove_crate removes the crate with its whole subtree, and none of the removed crates is ever valid again
 (whatever happens later): a removed crate is never again returned by any query. -/
 theorem C07V2_removed_subtree_gone (ops : List Db.V2.Op) (c : Int) (hc : qValid (run Db.empty ops) c = true)
-    (x : Int) (hx : x = c ∨ x ∈ qDescendants (run Db.empty ops) c) (later : List Db.V2.Op) :
+    (x : Int) (hx : x = c ∨ ∃ l, qDescendants (run Db.empty ops) c = .ok l ∧ x ∈ l) (later : List Db.V2.Op) :
     absF (step (run Db.empty ops) (.removeCrate c)).1 = Forest.removeSubtree (absF (run Db.empty ops)) c ∧
     qValid (run (step (run Db.empty ops) (.removeCrate c)).1 later) x = false := by
   have hI := plInv_run plInv_empty ops
-  have hn : (ids (run Db.empty ops).pl).Nodup := by rw [← absF_ids]; exact hI.wf.ids_nodup
-  have hstep : step (run Db.empty ops) (.removeCrate c) = (plRemove (run Db.empty ops) c, .ok none) := by
-    simp [Db.V2.step, show plExists (run Db.empty ops) c = true from hc]
-  have habs := absF_plRemove hn (fun r hr => hI.wf.id_pos (rowCrate r) (mem_crates_of_row hr)) (plExists_iff.mp hc)
-  rw [hstep]
+  have habs := absF_removeCrate hI (by rw [← qValid_eq]; exact hc)
   refine ⟨habs, ?_⟩
-  have hI' : PlInv (plRemove (run Db.empty ops) c) := by
-    have := plInv_step hI (.removeCrate c); rwa [hstep] at this
+  have hI' := plInv_step hI (.removeCrate c)
+  have hx' : x = c ∨ x ∈ descSet (run Db.empty ops) c := by
+    rcases hx with h | ⟨l, h1, h2⟩
+    · exact Or.inl h
+    · obtain ⟨l', h1', h2'⟩ := qDescendants_eq hI.wf c
+      rw [h1] at h1'
+      simp only [Res.ok.injEq] at h1'
+      subst h1'
+      exact Or.inr ((h2' x).mp h2)
   have hxl : x ∈ ids (run Db.empty ops).pl := by
-    rcases hx with rfl | hx
+    rcases hx' with rfl | hx
     · exact plExists_iff.mp hc
-    · exact (mem_descendantIds.mp hx).1
-  have hle : x ≤ (plRemove (run Db.empty ops) c).plSeq := hI.seq x hxl
-  have hgone : x ∉ ids (plRemove (run Db.empty ops) c).pl := by
+    · exact (mem_descSet.mp hx).1
+  have hle : x ≤ (step (run Db.empty ops) (.removeCrate c)).1.plSeq := by
+    have h1 := hI.seq x hxl
+    have h2 := (ids_step hI (.removeCrate c)).1
+    omega
+  have hgone : x ∉ ids (step (run Db.empty ops) (.removeCrate c)).1.pl := by
     rw [← absF_ids, habs]
     intro hm
     obtain ⟨y, hy, e⟩ := Forest.mem_ids.mp hm
     obtain ⟨_, h2, h3⟩ := Forest.mem_removeSubtree.mp hy
-    rcases hx with rfl | hx
+    rcases hx' with rfl | hx
     · exact h2 e
-    · rw [e, (mem_descendantIds.mp hx).2] at h3; exact absurd h3 (by simp)
+    · rw [e, (mem_descSet.mp hx).2] at h3; exact absurd h3 (by simp)
   have := never_returns hI' hle hgone later
-  cases hv : qValid (run (plRemove (run Db.empty ops) c) later) x with
+  cases hv : qValid (run (step (run Db.empty ops) (.removeCrate c)).1 later) x with
   | false => rfl
   | true => exact absurd (plExists_iff.mp hv) this
 
@@ -173,12 +191,14 @@ def sampleOps : List Db.V2.Op :=
    .rename 2 [101], .removeCrate 2, .createRoot [98]]
 
 example : qCrates (run Db.empty sampleOps) = [1, 5] := by decide
-example : qDescendants (run Db.empty (sampleOps.take 5)) 1 = [2, 3, 4] := by decide
+example : qDescendants (run Db.empty (sampleOps.take 5)) 1 = .ok [2, 3, 4] := by decide
 /-- a cycle-creating re-parenting in a forest of depth three -/
-example : (4 : Int) ∈ qDescendants (run Db.empty (sampleOps.take 5)) 1 := by decide
+example : qDescendants (run Db.empty (sampleOps.take 5)) 1 = .ok [2, 3, 4] ∧ (4 : Int) ∈ [2, 3, (4 : Int)] := by decide
 example : step (run Db.empty (sampleOps.take 5)) (.setParent 1 (some 4))
     = (run Db.empty (sampleOps.take 5), .throw (exn "crate_invalid_parent")) := by decide
-example : qValid (run Db.empty (sampleOps.take 6)) 2 = true ∧ (3 : Int) ∈ qDescendants (run Db.empty (sampleOps.take 6)) 2 := by decide
+example : qValid (run Db.empty (sampleOps.take 6)) 2 = true ∧ qDescendants (run Db.empty (sampleOps.take 6)) 2 = .ok [3, 4] := by decide
+/-- the model of the recursive view does not terminate on a cyclic table, like the real query (UNION ALL) -/
+example : descendantIds [⟨1, 2, 0, [97]⟩, ⟨2, 1, 0, [98]⟩] 1 = .ub .nontermination := by decide
 example : Forest.validName [] = false := by decide
 example : isCreate (.createRoot [98]) = true ∧ (step (run Db.empty (sampleOps.take 7)) (.createRoot [98])).2 = .ok (some 5) := by decide
 
